@@ -47,6 +47,8 @@ type Scenario struct {
 	Con          bool   `json:"con"`
 	NewConnFirst bool   `json:"newConnFirst,omitempty"`
 	MaxRetries   int    `json:"maxRetries,omitempty"`
+	// Neighbour (keepalive): a second peer of the same server that answers every ping
+	Neighbour bool `json:"neighbour,omitempty"`
 }
 
 type usConn struct {
@@ -257,6 +259,38 @@ func execOnce(sc Scenario) *evid.Failure {
 		}
 		_, _ = raw.WriteToUDP(peer.Datagram(request(300, 1, "hello")), dst1)
 		_ = read(60 * time.Millisecond)
+		// the neighbour: another peer of this server, which answers every ping it gets
+		var nb *net.UDPConn
+		nbStop := make(chan struct{})
+		nbDone := make(chan struct{})
+		if sc.Neighbour {
+			if nb, err = net.ListenUDP("udp4", &net.UDPAddr{IP: net.IPv4(127, 0, 0, 1)}); err != nil {
+				return nil
+			}
+			defer nb.Close()
+			_, _ = nb.WriteToUDP(peer.Datagram(request(400, 2, "neighbour")), dst1)
+			go func() {
+				defer close(nbDone)
+				buf := make([]byte, 2048)
+				for {
+					select {
+					case <-nbStop:
+						return
+					default:
+					}
+					_ = nb.SetReadDeadline(time.Now().Add(20 * time.Millisecond))
+					n, _, err := nb.ReadFromUDP(buf)
+					if err != nil {
+						continue
+					}
+					if m, ok := peer.ParseDatagram(buf[:n]); ok && m.Code == 0 && m.Type == peer.CON {
+						_, _ = nb.WriteToUDP(peer.Datagram(refcodec.Msg{Type: peer.RST, MID: m.MID}), dst1)
+					}
+				}
+			}()
+			defer func() { close(nbStop); <-nbDone }()
+			time.Sleep(30 * time.Millisecond)
+		}
 		pings, pingTicks := 0, 0
 		closedAt := -1
 		for k := 0; k < sc.MaxRetries+6 && closedAt < 0; k++ {
@@ -273,8 +307,10 @@ func execOnce(sc Scenario) *evid.Failure {
 				pingTicks++
 			}
 			mu.Lock()
-			if len(inactiveOrder) > 0 {
-				closedAt = k
+			for _, cc := range inactiveOrder {
+				if cc.RemoteAddr().String() == raw.LocalAddr().String() {
+					closedAt = k
+				}
 			}
 			mu.Unlock()
 		}
@@ -282,6 +318,17 @@ func execOnce(sc Scenario) *evid.Failure {
 			if r.m.Code == 0 && r.m.Type == peer.CON {
 				pings++
 			}
+		}
+		if sc.Neighbour {
+			mu.Lock()
+			nbAddr := nb.LocalAddr().String()
+			for _, cc := range inactiveOrder {
+				if cc.RemoteAddr().String() == nbAddr {
+					mu.Unlock()
+					return evid.Failf("udpserver/live-neighbour-closed", sc, "the monitor closed the connection of a peer that answered every ping, next to a silent peer of the same server (maxRetries %d)", sc.MaxRetries)
+				}
+			}
+			mu.Unlock()
 		}
 		if closedAt < 0 {
 			return evid.Failf("udpserver/dead-connection-kept", sc, "the peer went silent, %d ticks (one per %v, keep-alive period %v, maxRetries %d) later the monitor has not closed it; %d pings seen", sc.MaxRetries+6, period+20*time.Millisecond, period, sc.MaxRetries, pings)
@@ -322,6 +369,7 @@ func Gen(modes []string) func(t *rapid.T) Scenario {
 			sc.N = rapid.IntRange(1, 3).Draw(t, "n")
 		case "keepalive":
 			sc.MaxRetries, sc.NewConnFirst = rapid.IntRange(2, 3).Draw(t, "retries"), rapid.Bool().Draw(t, "newconn")
+			sc.Neighbour = rapid.Bool().Draw(t, "neighbour")
 		}
 		return sc
 	}
@@ -340,4 +388,4 @@ func Engine(r *evid.Run, modes []string, quick, thorough int) evid.Engine {
 }
 
 // Rule describes the engine for the evidence files.
-const Rule = "udpserver: the loopback udp/server behind a wildcard-bound listener with a hand-driven tick (real sockets, real time; a failure counts only if it reproduces three times in a row): twolocal - one remote socket talking to two local addresses is two logical connections (equal message IDs reach the handler twice, each answered from the address it was sent to); closed - a handler closes its own connection and the peer sends again before any tick: every connection ever reported runs its on-close callback exactly once and completes its done signal by the time Serve returned; keepalive - WithKeepAlive with an optional server-initiated NewConn first: a silent peer is closed only after pings went out to it in at least maxRetries ticks"
+const Rule = "udpserver: the loopback udp/server behind a wildcard-bound listener with a hand-driven tick (real sockets, real time; a failure counts only if it reproduces three times in a row): twolocal - one remote socket talking to two local addresses is two logical connections (equal message IDs reach the handler twice, each answered from the address it was sent to); closed - a handler closes its own connection and the peer sends again before any tick: every connection ever reported runs its on-close callback exactly once and completes its done signal by the time Serve returned; keepalive - WithKeepAlive with an optional server-initiated NewConn first: a silent peer is closed only after pings went out to it in at least maxRetries ticks, and a second peer of the same server that answers every ping is not closed"
